@@ -52,6 +52,19 @@ func cmdCheck(args []string) int {
 		return 2
 	}
 	prop := args[0]
+	// an internal error of the engine on the tree under check is reported as an undecided check (a violation line with
+	// the panic text), never as a silent non-zero exit
+	defer func() {
+		if e := recover(); e != nil {
+			path := filepath.Join(verifDir, "replays", prop+"-govc_internal_error.json")
+			_ = os.MkdirAll(filepath.Dir(path), 0o755)
+			data, _ := json.MarshalIndent(map[string]any{"property": prop, "obligation": "govc#internal.error", "verdict": "unknown", "solver_output": fmt.Sprint(e),
+				"note": "the verification-condition generator failed on this tree: nothing was decided", "failing_input": nil}, "", " ")
+			_ = os.WriteFile(path, append(data, '\n'), 0o644)
+			fmt.Printf("VIOLATION property=%s replay=%s obligation=govc#internal.error verdict=unknown no-failing-input-found\n", prop, path)
+			os.Exit(1)
+		}
+	}()
 	tier := os.Getenv("VERIF_TIER")
 	update := false
 	for _, a := range args[1:] {
